@@ -22,6 +22,7 @@ var ErrCrashed = errors.New("faultdrv: crashed (write dropped)")
 
 type Backing struct {
 	mu      sync.Mutex
+	opened  []*db // every wrapper handed out: cut loose from the real database on Destroy
 	db      driver.BatchDB
 	writes  int // driver writes since last ResetCount
 	crashAt int // 0 = disarmed; k = the k-th write from now fails
@@ -63,8 +64,56 @@ func Destroy(dsn string) {
 	regMu.Unlock()
 	if b != nil {
 		b.db.Close()
+		// The node's background goroutines (chunkinfo tickers and listeners have no way to stop) keep the
+		// store object reachable for the life of the process, and with it goleveldb's in-memory storage,
+		// i.e. every chunk of the case. Wrappers are therefore pointed at a dead stub once the case is over.
+		b.mu.Lock()
+		for _, w := range b.opened {
+			w.BatchDB = dead{}
+		}
+		b.opened, b.db = nil, dead{}
+		b.mu.Unlock()
 	}
 }
+
+// dead answers every call with an error.
+type dead struct{}
+
+var errDead = errors.New("faultdrv: store destroyed")
+
+func (dead) DefaultFieldKey() []byte                      { return nil }
+func (dead) DefaultIndexKey() []byte                      { return nil }
+func (dead) InitSchema() error                            { return errDead }
+func (dead) GetSchemaSpec() (driver.SchemaSpec, error)    { return driver.SchemaSpec{}, errDead }
+func (dead) CreateField(driver.FieldSpec) ([]byte, error) { return nil, errDead }
+func (dead) CreateIndex(driver.IndexSpec) ([]byte, error) { return nil, errDead }
+func (dead) RenameIndex(string, string) (bool, error)     { return false, errDead }
+func (dead) Get(driver.Key) ([]byte, error)               { return nil, errDead }
+func (dead) Has(driver.Key) (bool, error)                 { return false, errDead }
+func (dead) Put(driver.Key, driver.Value) error           { return errDead }
+func (dead) Delete(driver.Key) error                      { return errDead }
+func (dead) Search(driver.Query) driver.Cursor            { return deadCursor{} }
+func (dead) GetSnapshot() (driver.Snapshot, error)        { return nil, errDead }
+func (dead) Close() error                                 { return nil }
+func (dead) NewBatch() driver.Batching                    { return deadBatch{} }
+
+type deadBatch struct{}
+
+func (deadBatch) Put(driver.Key, driver.Value) error { return errDead }
+func (deadBatch) Delete(driver.Key) error            { return errDead }
+func (deadBatch) Commit() error                      { return errDead }
+
+type deadCursor struct{}
+
+func (deadCursor) Next() bool           { return false }
+func (deadCursor) Prev() bool           { return false }
+func (deadCursor) Last() bool           { return false }
+func (deadCursor) Seek(driver.Key) bool { return false }
+func (deadCursor) Key() []byte          { return nil }
+func (deadCursor) Value() []byte        { return nil }
+func (deadCursor) Valid() bool          { return false }
+func (deadCursor) Error() error         { return errDead }
+func (deadCursor) Close() error         { return nil }
 
 func (drv) Open(dsn, options string) (driver.DB, error) {
 	regMu.Lock()
@@ -73,7 +122,11 @@ func (drv) Open(dsn, options string) (driver.DB, error) {
 	if b == nil {
 		return nil, fmt.Errorf("faultdrv: unknown dsn %q", dsn)
 	}
-	return &db{BatchDB: b.db, b: b}, nil
+	w := &db{BatchDB: b.db, b: b}
+	b.mu.Lock()
+	b.opened = append(b.opened, w)
+	b.mu.Unlock()
+	return w, nil
 }
 
 // Arm makes the k-th write from now (k>=1) and all later ones fail and be dropped. Resets the counter.
